@@ -996,7 +996,7 @@ def run(ck: common.Check):
     cases += cd
     ck.extra["corrupt_zarr_documents(exploration, no model)"] = len(cd)
     ck.extra["single_fault_catalogue"] = len(cat)
-    npairs = 800 if ck.quick else 24000
+    npairs = 800 if ck.quick else 16000
     cases += fault_pairs(ck.rng, npairs)
     nconf = 200 if ck.quick else 3000
     cases += [("random-conformant", random_conformant(ck.rng)) for _ in range(nconf)]
@@ -1049,6 +1049,9 @@ def run(ck: common.Check):
                 if (nv_m == "ok") != (nv_i == "ok") or (nv_m in ("ValueError", "FileNotFoundError") and nv_m != nv_i):
                     ck.corr_broken("C04:readerInit(validate=False)", {"label": label, "target": t}, nv_i, nv_m)
     ck.extra["metadata_readings_cross_checked"] = n_meta_checked
+    ck.extra["explanation"] = ("proof: C04_sound_complete / C04_error_class / C04_no_other_exception / C04_reader_outcome hold for "
+                               "every abstract target; the model is tied to the code by the single-fault catalogue correspondence; "
+                               "corrupt zarr metadata documents are explored without a model (known finding)")
     ck.assumptions += [
         "zarr-python: Group.get/keys/array_keys/__contains__, open_group(mode='r') and the dtype/shape reported for "
         "an array are modelled (tree of groups/arrays with dtype class and shape), not verified",
